@@ -104,6 +104,18 @@ def evaluate(case):
             fails.append("result depends on the input order")
     except ZeroDivisionError:
         fails.append("result depends on the input order: a permutation of the same points makes rebin raise ZeroDivisionError (a populated bin came out empty)")
+    # the returned arrays belong to the caller: editing them in place (bin centres, unit change) must not change a later call
+    g1, v1 = Pre_Proc.rebin(x, y, xmin, xdiv, xmax)
+    g1 = np.asarray(g1)
+    v1 = np.asarray(v1)
+    try:
+        g1 += xdiv / 2
+        v1 *= 3.0
+    except (ValueError, TypeError):
+        pass  # read-only results are fine
+    g2, v2 = Pre_Proc.rebin(x, y, xmin, xdiv, xmax)
+    if not (np.array_equal(np.asarray(g2, dtype=float), g) and np.array_equal(np.asarray(v2, dtype=float), v)):
+        fails.append("rebin: editing the arrays returned by one call in place changes the result of the next call with the same arguments")
     xs, ys = x.copy(), y.copy()
     Pre_Proc.rebin(xs, ys, xmin, xdiv, xmax)
     if not (np.array_equal(xs, x) and np.array_equal(ys, y)):
